@@ -338,6 +338,10 @@ STMTS = [
     'print(args, kwargs)',
     'functools.partial(F, *args, **kwargs)()',
     'return functools.partial(F, 1, *args, **kwargs)',
+    'return functools.partial(*args, **kwargs)',
+    'p = functools.partial(*args)\nq = functools.partial(**kwargs)',
+    'vals = [F(*args, **kwargs) for args in ((1,), (2,))]',
+    'vals = [fn(*args, **kwargs) for fn in (F, G)]',
     'a, *args = args\nF(a, *args, **kwargs)',
     'def args():\n    pass\nF(*args, **kwargs)',
     'class kwargs:\n    pass\nF(*args, **kwargs)',
